@@ -102,6 +102,34 @@ for n0, cap0 in [(0, 1), (1, 1), (2, 2), (2, 8)]:
              'taken for part of the value: (def b @"abc") (buffer/format b "%j" b) appends @"abc@" - which parses back to @"abc@", not to the @"abc" that was printed (%p appends the correct @"abc"). '
              'Failing obligation: "the literal closes directly after the last byte of the printed value". Reproducer: /verif/design-probes/repro/c11_jdn_self_buffer.janet')
 
+# ---------------------------------------------------------------------------------------------------------------------
+# numbers outside the jdn path (C13: integers up to 2^53 print exactly)
+NUM_STUBS = ['janet_buffer_ensure:pn_ensure_stub', 'janet_buffer_extra:pn_extra_stub', 'snprintf:pn_snprintf_stub', 'floor:pn_floor_stub']
+unit('pp.number.to_string',
+     'number_to_string_b (string / print / %v / %q / %p): an integer-valued number of magnitude up to 2^53 is printed with %.0f (every digit, exactly), zero of either sign as 0, anything else with a '
+     '%g conversion of >= DBL_DIG digits; snprintf writes directly behind the existing contents into room reserved before (>= 25 bytes, size given <= room), the buffer grows by exactly the '
+     'characters printed and earlier contents are untouched', 'pp_number.c', 'h_number_to_string', props=['C13', 'C11'],
+     bound='output buffer empty or holding 7 earlier bytes; every double; every rendering length 1..24; unwind 26 with unwinding assertions', unwind=26, replace_calls=NUM_STUBS,
+     functions=['number_to_string_b'],
+     assumes=['floor(x) == x exactly for integer-valued x (stub over a ghost flag)', 'snprintf with %.0f (|x| <= 2^53) or %.<n>g produces 1..24 characters and returns that length (C standard)',
+              'janet_buffer_ensure(b, capacity, growth) makes room for capacity bytes (units seq.buffer.ensure); model block of 96 bytes'],
+     mutants=[M('integers-printed-with-%g', '? "%.0f" : ("%." STR(DBL_DIG) "g");', '? "%." STR(DBL_DIG) "g" : ("%." STR(DBL_DIG) "g");', 'C13 print'),
+              M('range-test-dropped', '    const char *fmt = (x == floor(x) &&\n                       x <= JANET_INTMAX_DOUBLE &&\n                       x >= JANET_INTMIN_DOUBLE)', '    const char *fmt = (x == floor(x))', 'C13 print'),
+              M('count-not-advanced', '        count = snprintf((char *) buffer->data + buffer->count, BUFSIZE, fmt, x);\n    }\n    buffer->count += count;', '        count = snprintf((char *) buffer->data + buffer->count, BUFSIZE, fmt, x);\n    }\n    buffer->count += 1;', 'C13 print'),
+              M('room-smaller-than-size', '    janet_buffer_ensure(buffer, buffer->count + BUFSIZE, 2);\n    const char *fmt', '    janet_buffer_ensure(buffer, buffer->count + 32, 2);\n    const char *fmt', 'C13 print'),
+              M('minus-zero-printed', '    if (x == 0.0) {\n        /* Prevent printing', '    if (0) {\n        /* Prevent printing', 'C13 print')])
+unit('pp.number.dispatch', 'janet_to_string_b prints a number value through number_to_string_b with exactly its unwrapped value', 'pp_number.c', 'h_to_string_number', cls='full-domain',
+     props=['C13', 'C11'], link=['wrap.c'], replace_calls=['number_to_string_b:pn_number_stub'], functions=['janet_to_string_b'], unwind=4,
+     assumes=['number_to_string_b is replaced by a recording stub (unit pp.number.to_string)'],
+     mutants=[M('numbers-truncated-to-integer', '            number_to_string_b(buffer, janet_unwrap_number(x));', '            number_to_string_b(buffer, (double) (int64_t) janet_unwrap_number(x));', 'C13 print|overflow|conversion')])
+unit('pp.number.integer', 'integer_to_string_b: every int32 (INT32_MIN included) prints as its exact decimal text - optional minus sign, digits without leading zeros, 1..11 characters inside the room '
+     'reserved, count advanced by the length, earlier contents untouched', 'pp_number.c', 'h_integer_to_string', cls='width-bounded', props=['C13'],
+     unwind=13, replace_calls=NUM_STUBS, functions=['integer_to_string_b', 'count_dig10'],
+     assumes=['janet_buffer_extra(b, n) makes room for n more bytes (units seq.buffer.extra); model block of 96 bytes'],
+     mutants=[M('digit-count-off-by-one', '        if (x > -100) return result + 1;', '        if (x >= -100) return result + 1;', 'C13 print'),
+              M('negation-overflow', '    if (x > 0) {\n        x = -x;\n    } else {\n        neg = 1;', '    if (x < 0) {\n        x = -x;\n        neg = 1;\n        *buf++ = \'-\';\n        x = -x;\n    } else if (0) {\n        neg = 1;', 'C13 print|overflow'),
+              M('sign-not-counted', '    buffer->count += len + neg;', '    buffer->count += len;', 'C13 print')])
+
 if __name__ == '__main__':
     json.dump({'units': U}, open(os.path.join(V, 'units', 'C11_pp.json'), 'w'), indent=1)
     print('wrote %d units (%d kept disabled: failing on the pinned tree)' % (len(U), sum(1 for u in U if u.get('disabled_reason'))))
